@@ -19,3 +19,27 @@ check("C17", "S", "exploration", "runtime contract (icontract ensure) on the rea
       "independently. Sampling beyond the enumerated core: held on the executions observed, not a proof.",
       "Trusted: the port of qemu's size_to_str and row format used to render listings; QemuImg and os replaced at the same "
       "seams the selftests use.", "DESIGN.md §3 C17")
+
+check("C16", "S", "exploration", "runtime contracts (icontract ensure) on the real PrefixTree / EdgeRegister methods vs naive scan and Counter shadow",
+      "Postconditions on PrefixTree.get/__contains__ and EdgeRegister.get_counters/get_workers compare every answer with a naive model kept "
+      "beside each live instance. The small scope (2 set variants, 3-4 letters, names <=3 variants, <=3 names, every insertion order, every "
+      "query up to length 3) is enumerated completely; larger random name sets, random register/lookup sequences and real TestNode copies "
+      "bridged in every order (registrations through one copy must be visible through all) are sampled.",
+      "Trusted: the naive contiguous-subsequence scan. Names obey the stated quantifier (set variant first and nowhere else, no repeated variant).",
+      "DESIGN.md §3 C16")
+
+check("C18", "S", "exploration", "icontract class invariant on the real VMNetwork + snapshot postconditions on VMNetconfig address arithmetic, ipaddress as reference",
+      "A class invariant (every interface in exactly one netconfig, under its own address, inside the subnet, no duplicate address) is "
+      "evaluated after construction and after every public method of the real VMNetwork on thousands of random topologies and "
+      "allocate/drain/reattach/translate sequences; postconditions check first-free allocation, exactly-|range| exhaustion, host-offset "
+      "preserving translation and the netmask/prefix round trip for all 33 prefix lengths.",
+      "Trusted: python's ipaddress module. Plain reattachment only; static addresses inside the DHCP range are counted as observations, "
+      "not judged (input precondition).", "DESIGN.md §3 C18")
+
+check("C19", "S", "exploration", "differential oracle over the generated left/right parameters of real VMTunnel objects for the full type product",
+      "For every combination of local x remote x peer x auth types (108 combinations incl. both spellings of 'no authentication') on random "
+      "topologies and end point pairs the real VMTunnel is built and an oracle written from the documented rules compares both sides key by "
+      "key (lan/remote nets, peer addresses, PSK identities, counterpart types), checks connects_nodes in both argument orders for every "
+      "node pair, and checks that unsupported types raise ValueError without touching node parameters.",
+      "Trusted: the oracle's reading of the documented counterpart rules; custom networks are existing subnets or overlap none.",
+      "DESIGN.md §3 C19")
